@@ -206,7 +206,8 @@ let parse_fci_hist t : fci_hist =
   | s -> failwith ("bad fci hist " ^ s)
 
 let parse_hist t : hist =
-  let w = (match next t with "d" -> WDirect | "pb" -> WPacketBuilder | "comp" -> WCompound
+  (* a trailing q asks the implementation to query the builder after every call; pure, so nothing for the model *)
+  let w = (match next t with "d" | "dq" -> WDirect | "pb" | "pbq" -> WPacketBuilder | "comp" | "compq" -> WCompound
                            | s -> failwith ("bad wrap " ^ s)) in
   let init = (match next t with
     | "sr" -> HSr (num t)
